@@ -133,6 +133,7 @@ package annotations
 //@   modifies nothing
 //@   ensures nonnil: result != nil
 //@   ensures value:  result.Value == keyValue(c, key)
+//@   ensures src:    result.Source == keySource(c, key)
 //@   ensures stored: in(key, c.keys) ==> result == c.keys[key]
 //@   ensures global: !in(key, c.keys) ==> result.Source == nil
 //@ end
@@ -164,4 +165,65 @@ package annotations
 //@   loop 1 invariant wf:    pathConfigWF(d.mapper) && pathsWF(d.backend) && authProxyNamed(c.haproxy.Frontend())
 //@   loop 1 invariant seen:  forall k int :: 0 <= k && k < $idx(1) ==> in(d.backend.Paths[k].Link.Hash(), d.mapper.configByPath)
 //@   loop 1 invariant done:  forall k int :: 0 <= k && k < $idx(1) && declaresBackendAuth(d.mapper, d.backend.Paths[k]) ==> closedAuth(&d.backend.Paths[k].AuthExternal)
+//@ end
+
+//@ spec func hostPathsWF(h *hatypes.Host) bool = h != nil && (forall k int :: 0 <= k && k < len(h.Paths) ==> h.Paths[k] != nil)
+//@     && (forall i int, j int :: 0 <= i && i < j && j < len(h.Paths) ==> h.Paths[i] != h.Paths[j])
+
+// frontend placement: every path of the host ends intercepted or denied
+//@ func (*updater).buildHostAuthExternal
+//@   props C18
+//@   requires wf:    d != nil && mapperWF(d.mapper) && hostPathsWF(d.host)
+//@   requires named: authProxyNamed(c.haproxy.Frontend())
+//@   ensures closed: lower(old(mapperValue(d.mapper, ingtypes.BackAuthExternalPlacement))) == "frontend" && old(mapperValue(d.mapper, ingtypes.BackAuthURL)) != "" ==>
+//@       forall k int :: 0 <= k && k < len(d.host.Paths) ==> d.host.Paths[k].AuthExt != nil && closedAuth(d.host.Paths[k].AuthExt)
+//@   loop 1 invariant rng:  0 <= $idx(1) && $idx(1) <= len(d.host.Paths) && d.host == old(d.host) && d.host.Paths == old(d.host.Paths) && url != nil
+//@   loop 1 invariant wf:   hostPathsWF(d.host) && authProxyNamed(c.haproxy.Frontend())
+//@   loop 1 invariant done: forall k int :: 0 <= k && k < $idx(1) ==> d.host.Paths[k].AuthExt != nil && closedAuth(d.host.Paths[k].AuthExt)
+//@ end
+
+// ---- oauth ------------------------------------------------------------------
+
+//@ spec func keySource(k *KeyConfig, key string) *Source = in(key, k.keys) ? k.keys[key].Source : nil
+//@ spec func pathSource(m *Mapper, link *hatypes.PathLink, key string) *Source =
+//@     in(link.Hash(), m.configByPath) ? keySource(m.configByPath[link.Hash()], key) : nil
+//@ spec func declaresOAuth(m *Mapper, p *hatypes.BackendPath) bool = pathSource(m, p.Link, ingtypes.BackOAuth) != nil
+//@ spec func ownAuthURL(m *Mapper, p *hatypes.BackendPath) bool = pathValue(m, p.Link, ingtypes.BackAuthURL) != ""
+//@ spec func closedOAuth(p *hatypes.BackendPath) bool = p.AuthExternal.AlwaysDeny || (p.AuthExternal.AuthBackendName != "" && p.AuthExternal.AuthPath != "")
+
+// trusted: backends referenced by host paths have non-empty ids; scanning reads only
+//@ func (*updater).findBackend
+//@   trusted
+//@   modifies nothing
+//@   ensures id: result != nil ==> result.ID != ""
+//@ end
+
+// A path that declares oauth ends intercepted by the oauth backend or denied,
+// unless the path itself declares auth-url (which has precedence and is handled
+// by the auth-url passes).  In every case a path is either left exactly as the
+// earlier passes decided, or ends intercepted-or-denied: the pass never turns a
+// deny into an unauthenticated path.  Declarations are those of the state at entry.
+//@ func (*updater).buildBackendOAuth
+//@   props C18
+//@   requires wf:   d != nil && pathConfigWF(d.mapper) && mapperWF(d.mapper) && pathsWF(d.backend)
+//@   ensures closed: forall k int :: 0 <= k && k < len(d.backend.Paths) && old(declaresOAuth(d.mapper, d.backend.Paths[k])) && !old(ownAuthURL(d.mapper, d.backend.Paths[k]))
+//@       ==> closedOAuth(d.backend.Paths[k])
+//@   ensures safe:   forall k int :: 0 <= k && k < len(d.backend.Paths) ==>
+//@       closedOAuth(d.backend.Paths[k]) || d.backend.Paths[k].AuthExternal == old(d.backend.Paths[k].AuthExternal)
+//@   at call KeyConfig).Get#1 assert cfgold: old(in(path.Link.Hash(), d.mapper.configByPath)) ==> config == old(d.mapper.configByPath[path.Link.Hash()])
+//@   at call KeyConfig).Get#1 assert cfgnew: !old(in(path.Link.Hash(), d.mapper.configByPath)) ==> forall key string :: !in(key, config.keys)
+//@   at call KeyConfig).Get#1 assert same:   path == old(d.backend.Paths[$idx(1)-1]) && path.Link == old(d.backend.Paths[$idx(1)-1].Link)
+//@   loop 1 invariant rng:    0 <= $idx(1) && $idx(1) <= len(d.backend.Paths) && d.backend == old(d.backend) && d.mapper == old(d.mapper) && d.backend.Paths == old(d.backend.Paths)
+//@   loop 1 invariant links:  forall k int :: 0 <= k && k < len(d.backend.Paths) ==> d.backend.Paths[k] == old(d.backend.Paths[k]) && d.backend.Paths[k].Link == old(d.backend.Paths[k].Link)
+//@   loop 1 invariant wf:     pathConfigWF(d.mapper) && mapperWF(d.mapper) && pathsWF(d.backend)
+//@   loop 1 invariant stable: forall h hatypes.PathLinkHash :: old(in(h, d.mapper.configByPath)) ==> in(h, d.mapper.configByPath) && d.mapper.configByPath[h] == old(d.mapper.configByPath[h])
+//@   loop 1 invariant cfgsame: forall h hatypes.PathLinkHash, key string :: old(in(h, d.mapper.configByPath)) ==>
+//@       keySource(d.mapper.configByPath[h], key) == old(keySource(d.mapper.configByPath[h], key)) && keyValue(d.mapper.configByPath[h], key) == old(keyValue(d.mapper.configByPath[h], key))
+//@   loop 1 invariant added:  forall h hatypes.PathLinkHash :: in(h, d.mapper.configByPath) && !old(in(h, d.mapper.configByPath)) ==>
+//@       d.mapper.configByPath[h].mapper == d.mapper && forall key string :: !in(key, d.mapper.configByPath[h].keys)
+//@   loop 1 invariant todo:   forall k int :: $idx(1) <= k && k < len(d.backend.Paths) ==> d.backend.Paths[k].AuthExternal == old(d.backend.Paths[k].AuthExternal)
+//@   loop 1 invariant done:   forall k int :: 0 <= k && k < $idx(1) && old(declaresOAuth(d.mapper, d.backend.Paths[k])) && !old(ownAuthURL(d.mapper, d.backend.Paths[k]))
+//@       ==> closedOAuth(d.backend.Paths[k])
+//@   loop 1 invariant safe:   forall k int :: 0 <= k && k < $idx(1) ==>
+//@       closedOAuth(d.backend.Paths[k]) || d.backend.Paths[k].AuthExternal == old(d.backend.Paths[k].AuthExternal)
 //@ end
